@@ -13,6 +13,11 @@ TIERS = {"quick": dict(tier=1, emitmod=300, backends=[("numpy", "64b"), ("pytorc
          "thorough": dict(tier=2, emitmod=30, backends=[("numpy", "64b"), ("pytorch", "64b"), ("jax", "64b"), ("tensorflow", "64b")], closed_frac=1.0)}
 
 
+SUITE = {"quick": ["tests/test_teststats.py", "tests/test_calculator.py"],
+         "thorough": ["tests/test_teststats.py", "tests/test_calculator.py", "tests/test_infer.py", "tests/test_pdf.py", "tests/test_validation.py",
+                      "tests/test_jit.py", "tests/test_backend_consistency.py", "tests/test_simplemodels.py"]}
+
+
 def validate_traces(v, traces, what):
     for i, t in enumerate(traces):
         t["id"] = i + 1
@@ -68,12 +73,23 @@ def run(prop, tier):
                     v.violation(f"[{be}/{prec}] {key}", detail, tags + [f"backend:{be}"])
                 traces += out["traces"]
     nacc, nrej = validate_traces(v, traces, "C05 drivers")
+    # Binding B, source (ii): the repository's own tests under the tracer -- every fit they execute is validated
+    import suite_traces
+    files = SUITE[tier]
+    recs, summary = suite_traces.run_tests(files, "c05suite")
+    tests = suite_traces.split(recs)
+    st = suite_traces.fit_traces(tests)
+    suite_fit_events = sum(len(x["events"]) for x in st)
+    if not st:
+        raise Machinery(f"no fit records from the repository tests {files} ({summary})")
+    sacc, srej = validate_traces(v, st, "repository tests " + " ".join(files))
     for ln in clines[:2] + plines[:1]:
         v.sample(json.loads(ln))
     v.coverage.update(
         states=fit.distinct + closed.distinct, transitions=fit.generated + closed.generated, tlc_wall_s=round(fit.wall + closed.wall, 1),
         tlc_invariants=FIT_INV + ["Feasible", "ScoreZeroWhenInterior"],
-        traces_validated_against_impl=nacc, hook_traces_rejected=nrej, fits_run=fits, refusals_seen=refusals, competitor_points=comps,
+        traces_validated_against_impl=nacc + sacc, hook_traces_rejected=nrej + srej, driver_fit_traces=nacc,
+        repository_tests_traced=len(tests), repository_test_files=files, repository_fit_traces_validated=sacc, repository_fit_events=suite_fit_events, fits_run=fits, refusals_seen=refusals, competitor_points=comps,
         evaluations=total, distinct_nontrivial=nontriv,
         rule=("Fit.tla: every (initial point, bounds, fixed mask, POI-fixed, stitch) combination for 3 parameters on a 3-point grid with a "
               "nondeterministic minimiser, invariants InBounds/FixedHeld/FreeFromMinimiser/NoSuccessNoReturn; a seeded share of the validated/"
